@@ -297,6 +297,9 @@ def events(e, elem):
         return []
     if elem == "Z":
         evs = [IDVAL.sub("0:0", x) for x in evs]
+    if elem.startswith("N"):
+        # the tracked types without a destructor: the model's drop events have no counterpart
+        evs = [x for x in evs if not x.startswith("D")]
     return evs
 
 
